@@ -1,3 +1,5 @@
 package main
 
-func extractAll() {}
+func extractAll() {
+	extractCompat()
+}
